@@ -39,6 +39,16 @@ WRAPPERS = {
     "pl": ("pickle", "loads"),
     "cpl": ("_pickle", "loads"),
     "tl": ("torch", "load"),
+    # the same loaders with a BUILD in front of the call: state is plain data, applying it resolves no global, yet it
+    # sets attributes on the (hooked) function object the pickle is about to call
+    "pl+kw": ("pickle", "loads"),
+    "cpl+kw": ("_pickle", "loads"),
+    "pl+dict": ("pickle", "loads"),
+}
+_WIDE = ["vp_sink.hit", "string.Formatter", "decimal.Decimal", "collections.Counter", "pickle.loads", "_pickle.loads"]
+STATES = {
+    "+kw": ORIG_DUMPS((None, {"__kwdefaults__": {"also_allow": _WIDE}, "__defaults__": (_WIDE,)}), 2)[2:-1],
+    "+dict": ORIG_DUMPS({"also_allow": _WIDE, "allowlist": None, "__wrapped__": None}, 2)[2:-1],
 }
 ADDSETS = {
     "none": [],
@@ -119,6 +129,9 @@ def build(chain, inner):
         if wname == "tl":
             # torch.load(io.BytesIO(data)) - BytesIO is in BASE
             body = b"ctorch\nload\n" + b"c_io\nBytesIO\n" + asm.BINBYTES(data).data + b"\x85R" + b"\x85R"
+        elif "+" in wname:
+            body = (b"c" + m.encode() + b"\n" + n.encode() + b"\n" + STATES[wname[wname.index("+"):]] + b"b" +
+                    asm.BINBYTES(data).data + b"\x85R")
         else:
             body = reduce_bytes(m, n, data)
         data = b"\x80\x02" + body + b"."
@@ -137,8 +150,9 @@ def globals_in(chain, kind, final, torch_container_globals):
 
 def cases(ctx):
     chains = [()]
+    base_wrappers = sorted(w for w in WRAPPERS if "+" not in w)
     for d in (1, 2, 3):
-        chains += list(itertools.product(sorted(WRAPPERS), repeat=d))
+        chains += list(itertools.product(sorted(WRAPPERS) if d < 3 else base_wrappers, repeat=d))
     allc = []
     for chain in chains:
         for kind in BARE_SPELLINGS + ("legacy", "zip"):
@@ -265,7 +279,7 @@ def run_case(ctx, mods, base, cache, chain, kind, final, entry, aname, overlay="
     seq = [WRAPPERS[wn] for wn in chain] + [FINALS[final]]
     first_bad = next(i for i, g in enumerate(chain_globals_of(chain, final)) if not in_allow(base, adds, g[1]))
     prefix = chain_globals_of(chain, final)[:first_bad]
-    certain = all(tag in ("tlb", "pl", "cpl") for tag, _ in prefix) and (
+    certain = all(tag in ("tlb", "pl", "cpl", "pl+kw", "cpl+kw", "pl+dict") for tag, _ in prefix) and (
         chain_globals_of(chain, final)[first_bad][0] != "final" or kind in BARE_SPELLINGS)
     if certain:
         agg.count("certainly_reached_forbidden")
